@@ -12,13 +12,15 @@ tvars == <<vars, tid, l, verdict, dpc>>
 Ev == Traces[tid].events
 
 TInit == /\ tid \in 1..NTraces /\ l = 1 /\ verdict = "ok" /\ dpc = 1
-         /\ InitWith(Traces[tid].init.cfg)
+         /\ InitWithAs(Traces[tid].init.cfg, Traces[tid].init.starter)
 
-Known == {"loadtls", "bind", "chroot", "chdir", "cfgroot", "setgroups", "setgid", "setuid", "serve", "abort"}
+Known == {"lookupuser", "lookupgroup", "loadtls", "bind", "chroot", "chdir", "cfgroot", "setgroups", "setgid", "setuid", "serve", "abort"}
 
 Apply(e) ==
     CASE e.ev = "loadtls"   -> LoadTLS(e.ok)
       [] e.ev = "bind"      -> Bind(e.ok)
+      [] e.ev = "lookupuser"  -> LookupUser(e.ok)
+      [] e.ev = "lookupgroup" -> LookupGroup(e.ok)
       [] e.ev = "chroot"    -> Chroot(e.ok, e.docroot)
       [] e.ev = "chdir"     -> Chdir(e.ok, e.inside)
       [] e.ev = "cfgroot"   -> SetCfgRoot(e.v)
@@ -28,7 +30,8 @@ Apply(e) ==
       [] e.ev = "serve"     -> Serve
       [] e.ev = "abort"     -> Abort
 
-StepName(e) == IF e.ev \in Drops THEN e.ev ELSE "none"
+\* a call that failed (injected fault, or refused by the emulated kernel) is not a privileged step TAKEN
+StepName(e) == IF e.ev \in Drops /\ e.ok THEN e.ev ELSE "none"
 
 Consume ==
     /\ l <= Len(Ev) /\ verdict = "ok"
